@@ -1155,6 +1155,10 @@ def _might_have_parameter(fn_or_cls, arg_name):
 
   while hasattr(fn, '__wrapped__'):
     fn = fn.__wrapped__
+  if fn in (object.__init__, object.__new__):
+    # A class without a constructor of its own is instantiated without
+    # arguments (`object.__init__`'s `*args, **kwargs` are only nominal).
+    return False
   arg_spec = _get_cached_arg_spec(fn)
   if arg_spec.varkw:  # pytype: disable=attribute-error
     return True
